@@ -242,3 +242,96 @@ def diagnostics_case(rep, prop: str, r: dict) -> None:
             rep.fail("falsifier", f"{prop}|{kind}|{misl}|{bt}|outgoing coordinates", f"{kind} ({misl}, misalignment ({r['mx']!r}, {r['my']!r}), "
                      f"{r['where']}) changed the {bt} that passed it: {do}", dict(r, beam=bt))
             return
+
+
+# ------------------------------------------------------------------------------------------------
+# diagnostics with a history
+# ------------------------------------------------------------------------------------------------
+DIAG_CHANGES = ["close-aperture", "pixel_size", "resolution+binning", "misalignment", "method", "none"]
+
+
+def _diag_lattice(r: dict, final: bool):
+    t = lambda v: torch.tensor(v, dtype=F64)   # noqa: E731
+    s = r["screen_final"] if final else r["screen"]
+    ap_x = r["ap_final"] if final else r["ap"]
+    return cheetah.Segment([
+        cheetah.Aperture(x_max=t(ap_x), y_max=t(1.0), is_active=True, name="ap", dtype=F64),
+        cheetah.Drift(length=t(0.5), name="d", dtype=F64),
+        cheetah.BPM(is_active=True, name="bpm"),
+        cheetah.Screen(resolution=tuple(s["resolution"]), pixel_size=t(s["pixel_size"]), binning=s["binning"], misalignment=t(s["misalignment"]),
+                       method=s["method"], kde_bandwidth=t(r["screen"]["pixel_size"][0]), is_active=True, name="scr", dtype=F64),
+    ], name="root")
+
+
+def _nan_equal(a, b) -> bool:
+    if a is None or b is None:
+        return a is None and b is None
+    a, b = torch.as_tensor(a), torch.as_tensor(b)
+    return tuple(a.shape) == tuple(b.shape) and bool(torch.allclose(torch.nan_to_num(a, nan=1.25e30), torch.nan_to_num(b, nan=1.25e30),
+                                                                     rtol=1e-9, atol=1e-300))
+
+
+def diag_history_case(rep, prop: str, r: dict) -> None:
+    """a diagnostic's reading reflects the most recent beam and the diagnostic's *current* settings: track and read, change
+    something (close the upstream aperture so that nothing arrives, change the screen's pixel size / resolution and
+    binning / misalignment / method), track and read again: equal to a freshly built lattice with the final values"""
+    P = np.array(r["particles"], dtype=float)
+    for bt in ("ParticleBeam", "ParameterBeam"):
+        if bt == "ParameterBeam" and r["change"] == "close-aperture":
+            continue            # (apertures act on particles only)
+        beam = lambda: LT.particle_beam(P, r["energy"]) if bt == "ParticleBeam" else LT.parameter_beam_from(P, r["energy"])   # noqa: E731
+        seg = _diag_lattice(r, final=False)
+        seg.track(beam())
+        _ = seg.bpm.reading, seg.scr.reading
+        t = lambda v: torch.tensor(v, dtype=F64)   # noqa: E731
+        sf = r["screen_final"]
+        seg.ap.x_max = t(r["ap_final"])
+        seg.scr.pixel_size = t(sf["pixel_size"])
+        seg.scr.resolution = tuple(sf["resolution"])
+        seg.scr.binning = sf["binning"]
+        seg.scr.misalignment = t(sf["misalignment"])
+        seg.scr.method = sf["method"]
+        seg.track(beam())
+        fresh = _diag_lattice(r, final=True)
+        fresh.track(beam())
+        for nm in ("bpm", "scr"):
+            try:
+                a, b = getattr(seg, nm).reading, getattr(fresh, nm).reading
+            except Exception as e:  # noqa: BLE001
+                rep.fail("falsifier", f"{prop}|{nm}.reading|after {r['change']}|{bt}|raises", f"{type(e).__name__}: {e}", dict(r, beam=bt))
+                return
+            if not _nan_equal(a, b):
+                rep.fail("falsifier", f"{prop}|{nm}.reading|after {r['change']}|{bt}",
+                         f"{nm}.reading after track, read, {r['change']}, track differs from a fresh lattice with the final settings ({bt}): "
+                         f"{str(torch.as_tensor(a).reshape(-1)[:4].tolist()) if a is not None else None} ... vs "
+                         f"{str(torch.as_tensor(b).reshape(-1)[:4].tolist()) if b is not None else None} ...", dict(r, beam=bt))
+                return
+
+
+def diag_history_probe(ctx, prop: str, n: int) -> None:
+    rep, rng = ctx.report, ctx.rng
+    for i in range(n):
+        change = DIAG_CHANGES[i % len(DIAG_CHANGES)]
+        scr = {"resolution": [int(E.pick(rng, 20, 24, 30)), int(E.pick(rng, 12, 16, 20))], "pixel_size": [float(E.pick(rng, 1e-4, 2e-4)), float(E.pick(rng, 1e-4, 3e-4))],
+               "binning": 1, "misalignment": [0.0, 0.0], "method": str(E.pick(rng, "histogram", "kde"))}
+        fin = copy.deepcopy(scr)
+        ap, apf = 1.0, 1.0
+        if change == "close-aperture":
+            apf = 1e-9
+        elif change == "pixel_size":
+            fin["pixel_size"] = [scr["pixel_size"][0] * 2.0, scr["pixel_size"][1] * 0.5]
+        elif change == "resolution+binning":
+            fin["resolution"], fin["binning"] = [2 * scr["resolution"][0], 2 * scr["resolution"][1]], 2
+        elif change == "misalignment":
+            fin["misalignment"] = [float(E.pick(rng, 3e-4, 0.0)), float(E.pick(rng, -2e-4, 4e-4))]
+        elif change == "method":
+            fin["method"] = "kde" if scr["method"] == "histogram" else "histogram"
+        r = {"kind": "diag_history", "change": change, "screen": scr, "screen_final": fin, "ap": ap, "ap_final": apf,
+             "energy": float(E.energy(rng)), "particles": LT.gen_particles(rng, 8).tolist()}
+        rep.fals_cases += 1
+        rep.count("probe:diag-history:" + change)
+        rep.case(("diag_history", change, scr["method"]), None)
+        try:
+            diag_history_case(rep, prop, r)
+        except Exception as ex:  # noqa: BLE001
+            rep.count(f"diag-history:rejected:{type(ex).__name__}")
